@@ -926,7 +926,7 @@ pub fn run(ctx: &Ctx) -> PropertyReport {
     rep.assume("the 20 s watchdog separates 'hang' from 'slow'; a time-out must reproduce to count");
     let sub = crate::engine::replay_subcheck_or_all(ctx);
     if sub.runs("mutants") {
-        let cases = ctx.cfg.cases(60_000, 3_000_000);
+        let cases = ctx.cfg.cases(120_000, 4_000_000);
         let mut r = ctx.run_prop("mutants", cases, || fuzz_case_strategy(5), fuzz_body);
         for l in [
             "mut:bitflip",
